@@ -56,6 +56,17 @@ func oaConvert(p oaProgram) (*oaLine, []core.Finding, bool) {
 		s.AreKeysOptionalByDefault = p.OptDef
 		typeObjs := map[string]*jschema.JSchema{}
 		for n, t := range p.Types {
+			if strings.HasPrefix(n, "rule:") {
+				if err := regSupport(s, n, t); err != nil {
+					skipped = true
+					return nil
+				}
+			}
+		}
+		for n, t := range p.Types {
+			if strings.HasPrefix(n, "rule:") {
+				continue
+			}
 			ts := jschema.New(n, t)
 			ts.AreKeysOptionalByDefault = p.OptDef
 			typeObjs[n] = ts
@@ -97,6 +108,14 @@ func oaConvert(p oaProgram) (*oaLine, []core.Finding, bool) {
 			s2 := jschema.New("root", p.Root)
 			s2.AreKeysOptionalByDefault = p.OptDef
 			for n, t := range p.Types {
+				if strings.HasPrefix(n, "rule:") {
+					_ = regSupport(s2, n, t)
+				}
+			}
+			for n, t := range p.Types {
+				if strings.HasPrefix(n, "rule:") {
+					continue
+				}
 				t2 := jschema.New(n, t)
 				t2.AreKeysOptionalByDefault = p.OptDef
 				_ = s2.AddType(n, t2)
